@@ -1,6 +1,6 @@
 """Check driver: collects spec statistics, replay counts and mismatches; applies the known-findings
 file; prints VIOLATION / KNOWN-FINDING lines; writes the evidence file; decides the exit code."""
-import sys, time, json, traceback
+import sys, time, json, traceback, os
 from . import evidence, findings
 from .common import seed, save_replay, Scratch, MachineryError
 
@@ -52,8 +52,13 @@ class Check:
         for fp, m in sorted(seen_known.items()):
             print("KNOWN-FINDING: property=%s %s [%s]" % (self.pid, known[fp].get("what", m["what"]), fp))
         reported = {}
+        counts = {}
         for m in fresh:
             reported.setdefault(m["fingerprint"], m)
+            counts[m["fingerprint"]] = counts.get(m["fingerprint"], 0) + 1
+        if os.environ.get("VERIF_DEBUG"):
+            for fp, m in reported.items():
+                print("DEBUG %5d  %s  | %s" % (counts[fp], fp, m["what"][:260]))
         for fp, m in list(reported.items())[:10]:
             path = save_replay(self.pid, {"property": self.pid, "fingerprint": fp, "what": m["what"],
                                           "scenario": m["payload"]})
